@@ -4,5 +4,9 @@ TRUSTED_BASE = []
 def run(ctx):
     camp = cache_corr.Campaign(ctx)
     cache_corr.history_campaign(ctx, camp, ctx.n(60, 1200), ctx.n(6, 8))
+    import cache_files
+    cache_files.run_file_histories(ctx, camp.found)     # real file stores, real modified times
+    import depviews
+    depviews.run(ctx, camp.add)
     camp.eval_model()
     camp.file({"C03"})
